@@ -643,7 +643,7 @@ def replay(cex):
             sv2, *_ = _real_survey(emg3d, shape, 'scalar', None, True, rng)
             sv2.standard_deviation = None
             g = sv2.standard_deviation
-            if g is None or not np.allclose(g.data, sv2.noise_floor):
+            if g is None or not np.allclose(g.data, sv2.noise_floor, rtol=1e-12, atol=0):
                 msgs.append("std=None does not fall back to the formula")
         else:
             for val in (0.25, None, rng.uniform(.1, 1, (shape[0], 1, 1)),
@@ -688,7 +688,7 @@ def replay(cex):
         sim._computed = True
         got = float(emg3d.simulations.Simulation.misfit.fget(sim))
         want = float(0.5*np.sum(np.abs(syn2-d)**2)/0.123**2)
-        return not np.isclose(got, want, rtol=1e-10), (
+        return not np.isclose(got, want, rtol=1e-10, atol=0), (
             f"real misfit after noise_floor reassignment and "
             f"clean('{cex['what']}'): {got} vs {want} with the new noise "
             f"floor")
@@ -713,7 +713,7 @@ def replay(cex):
         if got is None:
             if nf is not None or re is not None or std:
                 msgs.append("standard_deviation is None")
-        elif not np.allclose(got.data, want, rtol=1e-12):
+        elif not np.allclose(got.data, want, rtol=1e-12, atol=0):
             msgs.append("standard_deviation != sqrt(nf^2+(re|d|)^2)")
         before = _snap_real(sv)
         for nm, mk in (('copy', lambda: sv.copy()),
@@ -742,7 +742,7 @@ def replay(cex):
                     continue
                 w = full if np.ndim(full) == 0 else \
                     np.broadcast_to(full, shape)[idx]
-                if not np.allclose(np.asarray(g).ravel(), w, rtol=1e-12):
+                if not np.allclose(np.asarray(g).ravel(), w, rtol=1e-12, atol=0):
                     msgs.append(f"select: {nm} {np.asarray(g).ravel()} vs "
                                 f"{w}")
             if std and not np.allclose(
@@ -763,7 +763,7 @@ def replay(cex):
             fin = np.isfinite(obs_)
             stdn = sv.standard_deviation.data
             wantm = 0.5*np.sum(np.abs(syn[fin]-obs_[fin])**2/stdn[fin]**2)
-            if not np.isclose(got, wantm, rtol=1e-10):
+            if not np.isclose(got, wantm, rtol=1e-10, atol=0):
                 msgs.append(f"misfit {got} vs {wantm}")
         return bool(msgs), (f"real Survey ({shape}, nf={nf}, re={re}, "
                             f"std={std}): " + ('; '.join(msgs[:3]) or
